@@ -95,6 +95,12 @@ def module_attr(ex, m: ModuleRef, attr, mod):
 def call_builtin(ex, st, name, args, kwargs, node, mod):
     if name in ("datetime.datetime.now", "datetime.now"):
         return Opaque("datetime", {})
+    if name in ("copy.deepcopy", "copy.copy") and len(args) == 1:
+        # a structurally equal object graph that shares nothing mutable with the original (deepcopy; copy of a flat record behaves the same for its own fields)
+        from .engine import _clone
+
+        used(ex, f"{name}: fresh object graph equal to the argument")
+        return _clone(args[0], {})
     if name == "pathlib.Path":
         a0 = args[0] if args else None
         return a0 if isinstance(a0, Opaque) and a0.kind == "path" else Opaque("path", {"id": z3.Int(uid("path"))})
@@ -106,6 +112,9 @@ def call_builtin(ex, st, name, args, kwargs, node, mod):
     if name == "logging.getLogger":
         return Opaque("logger", {})
     if name in ("json.loads",):
+        # a contract may name the content of the file it reads as ghost parameter `_file_json`
+        if "_file_json" in st.env:
+            return st.env["_file_json"]
         return Opaque("json", {})
     if name in ("sys.exit", "exit"):
         # process exit: a SystemExit carrying the status (A-CLICK: in standalone mode click turns it into the process exit status)
@@ -678,6 +687,11 @@ def m_log(ex, st, args, kwargs, node):
         return Fraction(0)
     z = to_real(v)
     ex.safety(st, "log-domain", z > 0, node)
+    c = ex.fn_stack[0][1] if ex.fn_stack else None
+    if c is not None and c.options.get("log_sign_facts"):
+        # sign of the natural logarithm (a property of ln, instantiated at this argument)
+        used(ex, "math.log: sign facts ln x > 0 for x > 1, ln 1 = 0, ln x < 0 for 0 < x < 1 (instantiated per call)")
+        st.pc.append(z3.And(z3.Implies(z > 1, LOG(z) > 0), z3.Implies(z == 1, LOG(z) == 0), z3.Implies(z3.And(z > 0, z < 1), LOG(z) < 0)))
     return LOG(z)
 
 
